@@ -290,7 +290,8 @@ class Float(Domain):
             if random_state is None:
                 random_state = np.random
             log_items = random_state.uniform(logmin, logmax, size=size)
-            items = -np.expm1(-log_items)
+            # ``-expm1(-(-log1p(-x)))`` can differ from ``x`` by round-off
+            items = np.clip(-np.expm1(-log_items), domain.lower, domain.upper)
             return _sanitize_sample_result(items, domain)
 
     class _Normal(Normal):
